@@ -13,8 +13,8 @@ def main():
     for sw in ("NoTypeCheck", "ImportOnlyNotFound", "NoClassCheck", "MroRegistryLookup"):
         ctx.run_tlc("JsonSer", f"JsonSer_sw_{sw}.cfg", expect="violation")
     classes = [j for j in ctx.run_tlc("JsonSer", "JsonSer_gen_tag.cfg", expect="ok").json_lines() if isinstance(j, dict) and "tag" in j]
-    if len(classes) != 25:
-        raise MachineryError(f"expected 25 tag classes, got {len(classes)}")
+    if len(classes) != 27:
+        raise MachineryError(f"expected 27 tag classes, got {len(classes)}")
     results = replay("jsonser", [{"part": "tag", "tag": c["tag"]} for c in classes], shards=4)
     for c, r in zip(classes, results):
         for t in r["tags"]:
